@@ -1,6 +1,6 @@
 (* C09: a small concrete codec satisfying the laws the theorems assume (so that they are not vacuous),
    and concrete runs of the executable toy instance used as witnesses. *)
-From AV Require Import Lib.Base Generated.DecodeGen Model.Decode Proofs.DecodeBound Proofs.DecodeProgress.
+From AV Require Import Lib.Base Generated.DecodeGen Model.Decode Proofs.DecodeCommon Proofs.DecodeBound Proofs.DecodeProgress.
 From Coq Require Import ZifyBool ZifyN.
 Ltac Zify.zify_post_hook ::= Z.to_euclidean_division_equations.
 Open Scope N_scope.
